@@ -545,10 +545,7 @@ def _add_ephemeral_service(config, onion, progress, version, auth=None, await_al
     if onion not in config.EphemeralOnionServices:
         config.EphemeralOnionServices.append(onion)
 
-    # we have to keep this as a Deferred for now so that HS_DESC
-    # listener gets added before we issue ADD_ONION
     assert version in (2, 3)
-    uploaded_d = _await_descriptor_upload(config.tor_protocol, onion, progress, await_all_uploads)
 
     # we allow a key to be passed that *doestn'* start with
     # "RSA1024:" because having to escape the ":" for endpoint
@@ -611,6 +608,12 @@ def _add_ephemeral_service(config, onion, progress, version, auth=None, await_al
             else:
                 cmd += ' ClientAuth={}:{}'.format(client_name, keyblob)
                 onion._add_client(client_name, keyblob)
+
+    # we have to keep this as a Deferred for now so that HS_DESC
+    # listener gets added before we issue ADD_ONION (but only once the
+    # arguments have been validated, above, so that a refused request
+    # doesn't leave the listener behind)
+    uploaded_d = _await_descriptor_upload(config.tor_protocol, onion, progress, await_all_uploads)
 
     try:
         raw_res = yield config.tor_protocol.queue_command(cmd)
